@@ -4,7 +4,7 @@
 From Coq Require Import NArith ZArith List String Bool Permutation.
 From V Require Import Base.UString Base.Json Model.SchemaTypes Model.PyBase Model.Schema Model.Serialize.
 From V Require Import Spec.JsonValue Proofs.C01Basics Proofs.C01Serialize.
-From V Require Import Proofs.C01Kinds Proofs.C01KindsAll Proofs.C01Object Proofs.C01Roundtrip Proofs.C01Parse Proofs.C01Bundle Proofs.C01Observed Proofs.C01LibInstance Gen.Tables.
+From V Require Import Proofs.C01Kinds Proofs.C01KindsAll Proofs.C01Object Proofs.C01Roundtrip Proofs.C01Parse Proofs.C01Bundle Proofs.C01Observed Proofs.C01Pretty Proofs.C01LibInstance Gen.Tables.
 Import ListNotations.
 
 (* All serialization options denote the same JSON value: whatever the option set, the value written
@@ -105,6 +105,28 @@ Theorem reserialize_identical_partial :
     serialize_value opts o' = serialize_value opts o.
 Proof. exact C01Roundtrip.reserialize_identical_construct. Qed.
 Print Assumptions reserialize_identical_partial.
+
+(* pretty_toplevel_spec_order, partial (the covered classes; plain input): pretty=True writes the top-level
+   members of a constructed object -- those that are kept: all of them, or those not defaulted -- in the
+   object's own order (pretty_toplevel_order above), and that order is the class's property list in class
+   (specification) order followed by the custom property names sorted.  Side conditions of the serialization
+   layer: no all-digit top-level key, values equal to themselves under Python == (no NaN). *)
+Theorem pretty_toplevel_spec_order_partial :
+  forall vr ev w pattern_ok selectors_ok, vr_year_pad vr = true ->
+  forall ids, closed_okw vr w ids = true ->
+  forall f kid allow interop kw vrefs ci inner dfl hc c incl g ms,
+    mem_ustr kid ids = true -> plain_dict kw = true -> id_given w kid kw = true ->
+    run vr ev w pattern_ok selectors_ok (S f) (RConstruct kid allow interop kw vrefs) = Ok (PObject ci inner dfl hc) ->
+    find_class (wclasses w) kid = Some c ->
+    forallb (fun kv => negb (key_isdigit (fst kv))) inner = true ->
+    forallb (fun kv => pyeq (snd kv) (snd kv)) inner = true ->
+    pretty_enc (S g) (PObject ci inner dfl hc) incl (PObject ci inner dfl hc) = JObj ms ->
+    map fst ms = map fst (kept incl dfl inner) /\
+    exists customs,
+      map fst inner = filter (fun n => amem n inner) (PN c ++ customs) /\
+      NoDup (PN c ++ customs) /\ (forall x, In x customs -> mem_ustr x (PN c) = false).
+Proof. exact C01Pretty.pretty_spec_order. Qed.
+Print Assumptions pretty_toplevel_spec_order_partial.
 
 (* roundtrip_equal at the level of stix2.parse(text) with no version named (detect_own_output included):
    the object's own encoding is detected as the same spec version, looked up as the same class and
